@@ -29,10 +29,11 @@ run)
   one() { id=$1; extra=$(grep "^$id " /verif/tools/wave_extra_checks.txt | cut -d' ' -f2-)
     for v in A B C; do d=/tmp/seed$N-$id/$v; [ -f $d/patch.diff ] || continue
       echo "== $id-$v"; tools/seedverify.sh $d /tmp/wt$N-$id 2>&1 | tail -1; tools/wtrun.sh /tmp/wt$N-$id $d/patch.diff $id $extra; done; }
+  rm -rf /tmp/wave$N.harness; cp -r /verif/harness /tmp/wave$N.harness; export HARNESS_DIR=/tmp/wave$N.harness   # frozen copy: the harness may be edited while the lanes run
   rm -f /tmp/wave$N.*.log; l=0
   for id in $ids; do l=$(( (l % 3) + 1 )); eval "lane$l=\"\$lane$l $id\""; done
   for l in 1 2 3; do eval "lst=\$lane$l"; ( for id in $lst; do one $id; done ) > /tmp/wave$N.$l.log 2>&1 & done
-  wait ;;
+  wait; rm -rf /tmp/wave$N.harness ;;
 summary)
   cat /tmp/wave$N.*.log | awk '/^==/{name=$2; seen[name]=1} /^SEED/{ if ($0 !~ /suite=green demo_with_change=red demo_without=green/) bad[name]=$0 } /^\[/{ if ($0 ~ /rc=1/) k[name]=1; if ($0 ~ /rc=2|build failed/) b[name]=$0 } END{n=0; for (s in seen) { n++; if (!k[s]) print s, "NOT-KILLED"; if (s in b) print s, "BROKEN", b[s]; if (s in bad) print s, "UNVERIFIED", bad[s] } print n, "seeds" }' | sort ;;
 clean)
